@@ -54,7 +54,7 @@ STRENGTHENED = {
              "added condition c01_dfa5 and permutation a-rows to c02_minimal_52 (the same change, filed under C02 "
              "as C02_3, was caught as first built)",
     "C01_4": "NOT a valid seeded change: with the patch the repository's own test_remove_epsilon_transitions fails under "
-             "some hash seeds (1 run in 3); kept for the record, not counted",
+             "some hash seeds (1 run in 3); kept for the record, not counted (the C01 quick check does report it: c01_structural_dense)",
     "C03_4": "needs an operand that is used, edited and used again; condition c03_reuse was written after reading the "
              "change's description and before the first run (the earlier C03 conditions build every operand once)",
     "C04_4": "needs remove_transition before the query; condition c04_edit was written after reading the description "
